@@ -6,6 +6,8 @@ import gate
 
 CONFIGS = ['prod', 'testutils']
 EXPLANATION = (
+    'SEM (primary): OrSWotSet::diff interpreted over all abstract inputs lists a peer entry exactly when this replica lacks it (live keys first list, tombs'
+    'tones second; purge cut-off consulted only when nothing is held). '
     'Decided clauses: D0 what diff lists — in the per-key test every push into a result vector is guarded, on each of the two '
     '"replica holds something" branches, by the STRICT edge held < peer (equal timestamps are the normal state of synchronised '
     'replicas: listing them would make repair never finish), and on the "holds nothing" branch by the false edge of the purge cut-off '
